@@ -273,7 +273,7 @@ fn gen_unit(rng: &mut Rng, h: &Init, apps: &[App], oneshot: bool) -> (UnitEnv, S
 enum RStep { Fire30, FirePing(usize), Ctl(usize, bool) }
 
 fn steps_tok(v: &[Step]) -> String {
-    if v.is_empty() { "-".into() } else { v.iter().map(|s| match s { Step::Fire(i) => format!("f{}", i), Step::Ctl(id, od) => format!("c{}:{}", id, if *od { "od" } else { "st" }) }).collect::<Vec<_>>().join(",") }
+    if v.is_empty() { "-".into() } else { v.iter().map(|s| match s { Step::Fire(i) => format!("f{}", i), Step::Ctl(id, od) | Step::CtlPair(id, od, _, _) => format!("c{}:{}", id, if *od { "od" } else { "st" }) }).collect::<Vec<_>>().join(",") }
 }
 
 fn outcomes_tok(v: &VecDeque<HttpOutcome>) -> String {
@@ -365,10 +365,10 @@ pub fn run_history_opt(rng: &mut Rng, init: Init, nunits: usize, oneshot: bool, 
 
     let mut runner = if oneshot {
         let stream = futures::executor::block_on(builder.oneshot_check());
-        Runner { hub: hub.clone(), stream: Box::pin(stream), handle: None, ctls: vec![], replies: vec![], flag, ended: false, polls: 0, stalled_wakeups: 0, contend: None, storage: None, app_set: None, contended: 0, crash_at: None }
+        Runner { hub: hub.clone(), stream: Box::pin(stream), handle: None, ctls: vec![], replies: vec![], flag, ended: false, polls: 0, stalled_wakeups: 0, contend: None, storage: None, app_set: None, contended: 0, crash_at: None, shared: None }
     } else {
         let (handle, stream) = futures::executor::block_on(builder.start());
-        Runner { hub: hub.clone(), stream: Box::pin(stream), handle: Some(handle), ctls: vec![], replies: vec![], flag, ended: false, polls: 0, stalled_wakeups: 0, contend: None, storage: None, app_set: None, contended: 0, crash_at: None }
+        Runner { hub: hub.clone(), stream: Box::pin(stream), handle: Some(handle), ctls: vec![], replies: vec![], flag, ended: false, polls: 0, stalled_wakeups: 0, contend: None, storage: None, app_set: None, contended: 0, crash_at: None, shared: None }
     };
 
     runner.crash_at = crash_at;
@@ -396,6 +396,17 @@ pub fn run_history_opt(rng: &mut Rng, init: Init, nunits: usize, oneshot: bool, 
         // control request ids carry the unit index
         for s in env.wake.iter_mut() { if let Step::Ctl(id, _) = s { *id += 1000 * k; } }
         for d in env.during.iter_mut() { d.0 += 1000 * k; }
+        // an abandoned request followed at once by an awaited one from the same handle instance: the first wakes the machine
+        // and is served (its reply goes nowhere), the second arrives while the check it started is running
+        // (only where the check is sure to block on its first exchange: a request that cannot be built ends the check at once)
+        if !oneshot && env.during.is_empty() && env.allow.starts_with("ok") && !init.name.contains('\u{1}') && !init.url.contains(' ') && rng.chance(1, 3) {
+            if let [Step::Ctl(_, od)] = env.wake[..] {
+                let od2 = rng.chance(1, 2);
+                env.wake = vec![Step::CtlPair(900_000 + k, od, 1000 * k + 250, od2)];
+                env.during = vec![(1000 * k + 250, od2)];
+                env.during_at = 0;
+            }
+        }
         let mut rplan: VecDeque<(RStep, (i128, i128))> = VecDeque::new();
         for _ in 0..rng.below(5) {
             let s = match rng.below(4) { 0 => RStep::Fire30, 1 => RStep::Ctl(1000 * k + 300 + rplan.len(), rng.chance(1, 2)), _ => RStep::FirePing(rng.below(2) as usize) };
@@ -514,7 +525,7 @@ pub fn run_history_opt(rng: &mut Rng, init: Init, nunits: usize, oneshot: bool, 
             start_mono, fin0.map(|f| f.to_string()).unwrap_or("-".into()), d.should as u8, unit_tokens(&d.env, &d.jit, &d.rsteps));
         // end state: context from the next `P next` (run) or the last events (oneshot)
         let mut out: Vec<String> = canon_draws(lines);
-        let mut replies: Vec<(usize, String)> = all_replies.iter().filter(|(id, _)| id / 1000 == k).cloned().collect(); replies.sort();
+        let mut replies: Vec<(usize, String)> = all_replies.iter().filter(|(id, _)| id / 1000 == k || (*id >= 900_000 && id - 900_000 == k)).cloned().collect(); replies.sort();
         for (id, r) in &replies { out.push(format!("R {} {}", id, r)); }
         let end_ctx = if oneshot {
             let sched = lines.iter().rev().find(|l| l.starts_with("E sched ")).map(|l| l[8..].to_string());
@@ -682,7 +693,7 @@ pub fn run_ctl(o: &Opts, rng: &mut Rng) -> Sink {
                 envs.push(e);
             }
             { let mut h = hub.lock().unwrap(); h.units = envs.iter().skip(1).cloned().collect(); h.env = envs[0].clone(); }
-            let mut runner = Runner { hub: hub.clone(), stream: Box::pin(stream), handle: Some(handle), ctls: vec![], replies: vec![], flag, ended: false, polls: 0, stalled_wakeups: 0, contend: None, storage: None, app_set: None, contended: 0, crash_at: None };
+            let mut runner = Runner { hub: hub.clone(), stream: Box::pin(stream), handle: Some(handle), ctls: vec![], replies: vec![], flag, ended: false, polls: 0, stalled_wakeups: 0, contend: None, storage: None, app_set: None, contended: 0, crash_at: None, shared: None };
             if kind == 0 {
                 // gone: run some units, then drop the machine (its stream) and ask
                 let before = r.below(nunits as u64 + 1) as usize;
